@@ -3,7 +3,8 @@
 Each element of the lattice is a PAIR of runs through the setup classes - the original record and a
 transformed one (y' = L y, fs' = k fs) - for every algorithm class; the whole result tables of the two runs
 are compared under the relation the statement gives (Fn' = k Fn, Xi' = Xi, phi' ~ L phi, labels equal), pole
-tables column by column as multisets matched one-to-one by value.
+tables column by column as multisets matched one-to-one by value. The transformed record is handed over both as a fresh array and as the SAME array
+object re-declared at another rate / rescaled or permuted in place (sequences of runs back to back, identical settings).
 """
 import itertools
 
@@ -14,14 +15,16 @@ from checks import _a_fdd as H
 from mc.core import Tally
 
 ID = "C08"
-TECHNIQUE = ("exhaustive walk of the (record x algorithm class x estimation setting x transformation) lattice; every element "
+TECHNIQUE = ("exhaustive walk of the (record x algorithm class x estimation setting x transformation x fresh copy / same array "
+             "object re-used) lattice; every element "
              "is a pair of complete runs through SingleSetup / MultiSetup_PreGER whose whole result tables are compared under "
              "the stated covariance relation (metamorphic oracle, pole tables as per-order multisets with one-to-one matching)")
-LEVEL_TEXT = ("every pair of the stated lattice is executed on the real code; the oracle is the relation between the two runs "
+LEVEL_TEXT = ("every pair of the stated lattice (fresh-copy pairs and every step of the same-object sequences) is executed on the real code; the oracle is the relation between the two runs "
               "written in the property, evaluated on every cell of every result table")
 RULE = ("a case is one (record, channels, algorithm variant, setting, transformation) pair of runs; distinct by lattice "
         "coordinates; non-trivial = the transformation is not the identity and the original run reports at least one "
-        "pole / selected line whose value is compared (all lattice pairs are built that way)")
+        "pole / selected line whose value is compared (all lattice pairs are built that way); a step of a same-object "
+        "sequence is one case, distinct by the prefix of the sequence up to it")
 ASSUMPTIONS = [
     "tolerances: 1e-9 on FDD-family tables, 1e-8 on SSI tables (worst observed over the thorough lattice, seeds 0-4: 3e-10, on "
     "spurious poles of the largest models), 1e-4 on pLSCF tables (observed 9e-8) - Fn relative, Xi absolute, shapes "
@@ -34,6 +37,11 @@ ASSUMPTIONS = [
     "orthogonal mixing runs with MPC/MPD switched off (mpc_lim=-1, mpd_lim=1e9): MPC with mean removal is not rotation "
     "invariant and the statement does not say it is; multi-setup mixing is block-orthogonal (references among themselves, "
     "the same in every setup; roving channels among themselves per setup)",
+    "object re-use: besides fresh copies, the transformed record is the same ndarray object(s) handed to a new setup for every "
+    "step of a fixed sequence (time unit: object untouched, declared at k x fs; gain / permutation: applied in place, "
+    "accumulating, so later steps are composite transformations of the untouched record), all runs of a sequence directly "
+    "after one another in one process with identical settings; orthogonal mixing is not part of these sequences (it needs "
+    "the MPC/MPD criteria switched off in the original run as well); integer-count records are not re-used in place",
     "a difference of labels or of the NaN pattern is not judged when the harness, recomputing the criterion from the "
     "original table, finds it within 1e3 x tolerance of its threshold (knife edge); every other difference is a violation",
 ]
@@ -235,6 +243,7 @@ def execute(variant, setting, tr_kind, data, fs, refs, k, seed, nch):
     r = Run()
     res = alg.result
     r.fam = fam
+    r.held = all(a is b for a, b in zip(ss.datasets, data)) if ms else (alg.data is data)   # monitor only, never a guard
     f_true = H.system(seed, nch)[0] * fs          # the three natural frequencies in the declared time unit
     if fam in ("fdd", "efdd"):
         r.freq, r.Sy, r.S_val, r.S_vec = (np.array(getattr(res, a)) for a in ("freq", "Sy", "S_val", "S_vec"))
@@ -528,14 +537,22 @@ def run_pair(t, seed, kind, nch, variant, setting, tr, cache=None):
             cache[ck] = r
         runs.append(r)
     r0, r1 = runs
-    t.states += 1
     where = f"{fam}:{tr[0]}:{variant}"
+    if judge(t, r0, r1, L, k, fam, cls, where, case):
+        t.outcomes[f"pair {tr[0]}"] += 1
+        t.outcomes[f"pair {cls}"] += 1
+        t.nontrivial.add((kind, nch, variant, tuple(sorted(setting.items())), tr[0], repr(tr[1])))
+
+
+def judge(t, r0, r1, L, k, fam, cls, where, case):
+    """Compare the whole result tables of two runs under y' = L y, fs' = k fs; True when the tables were compared."""
+    t.states += 1
     if isinstance(r0, Exception) or isinstance(r1, Exception):
         if isinstance(r0, Exception) and isinstance(r1, Exception) and type(r0) is type(r1):
             t.violation(f"raises:{type(r0).__name__}:{cls}.run", f"both runs raise {r0!r:.200}", case)
         else:
             t.violation(f"run-raises-in-one-run:{where}", f"original: {r0!r:.150}; transformed: {r1!r:.150}", case)
-        return
+        return False
     tol = TOL["plscf" if fam == "plscf" else ("ssi" if fam == "ssi" else "fdd")]
     if fam in ("fdd", "efdd"):
         compare_spectra(t, r0, r1, L, k, tol, where, case)
@@ -544,9 +561,109 @@ def run_pair(t, seed, kind, nch, variant, setting, tr, cache=None):
             compare_spectra(t, r0, r1, L, k, 1e-9, where, case, vectors=False)
         compare_poles(t, r0, r1, L, k, tol, where, case)
     compare_mpe(t, r0, r1, L, k, tol, where, case)
-    t.outcomes[f"pair {tr[0]}"] += 1
-    t.outcomes[f"pair {cls}"] += 1
-    t.nontrivial.add((kind, nch, variant, tuple(sorted(setting.items())), tr[0], repr(tr[1])))
+    return True
+
+
+# ---- the same array object handed to several setups one after the other -------------------------------------
+# A step is (kind, a). ("time", k): the very same ndarray object(s) - content untouched - are declared at k x FS in a new
+# setup. ("gain", g) / ("perm", p): the object is rescaled / its columns are permuted IN PLACE and declared at FS again; the
+# in-place changes accumulate, so a later "time" step is a composite gain x permutation x time transformation of the original
+# record. Every step is one complete run with identical estimation settings, executed directly after the previous one in the
+# same process, and compared with the run on the untouched record under the accumulated (L, k).
+REUSE_QUICK = (
+    (("time", 7.0), ("time", 0.01), ("gain", 1e-6), ("time", 100.0), ("perm", 0)),
+    (("time", 0.5), ("time", 100.0), ("gain", -1e3), ("time", 0.01), ("perm", 1)),
+)
+# thorough tier: every quick sequence is continued by one of these tails (so the quick steps are prefixes of the thorough ones)
+REUSE_TAILS = (
+    (("time", 0.5), ("gain", -1.0), ("time", 3.3), ("perm", 2)),
+    (("time", 7.0), ("gain", 12345.678), ("time", 0.1), ("perm", 3)),
+    (("gain", 0.37), ("time", 41.0), ("perm", 2), ("time", 0.1)),
+)
+REUSE_PERMS_MS = (((1, 0, 2, 3), (1, 0, 2, 3)), ((0, 2, 1, 3), (0, 3, 1, 2)), ((2, 3, 0, 1), (2, 3, 0, 1)), ((1, 3, 0, 2), (1, 2, 0, 3)))
+
+
+def reuse_perm(which, nch, ms):
+    if ms:
+        return REUSE_PERMS_MS[which % len(REUSE_PERMS_MS)]
+    base = list(range(nch))
+    return (tuple(base[1:] + base[:1]), tuple([1, 0] + base[2:]), tuple(base[::-1]), tuple(base[-1:] + base[:-1]))[which % 4]
+
+
+def run_reuse(t, seed, kind, nch, variant, setting, steps):
+    cls, fam, kw = VARIANTS[variant]
+    ms = cls.endswith("_MS")
+    Y = build_inputs(seed, kind, nch, ms)
+    if ms:
+        data = [np.ascontiguousarray(Y[:, c]) for c in MS_COLS]          # this list and these arrays go to every setup
+        objs = data
+        cols = [list(c) for c in MS_COLS]
+        ref_ids = [[c[r] for r in rr] for c, rr in zip(MS_COLS, MS_REF)]
+        refs = [list(r) for r in MS_REF]
+        ids0 = merged_ids(MS_COLS, MS_REF)
+        nn = 6
+    else:
+        data = np.ascontiguousarray(Y, dtype=float)                      # this array goes to every setup
+        objs = [data]
+        cols = [list(range(nch))]
+        ref_ids = [kw.get("ref_ind")]
+        refs = kw.get("ref_ind")
+        ids0 = list(range(nch))
+        nn = nch
+    g, k = 1.0, 1.0
+    ids1 = list(ids0)
+
+    def one(k):
+        t.evaluations += 1
+        try:
+            return execute(variant, setting, "reuse", data, FS * k, refs, k, seed, nn)
+        except Exception as e:
+            return e
+
+    r0 = one(1.0)
+    if not isinstance(r0, Exception) and r0.held:
+        t.outcomes["same-object: the algorithm received the caller's own array object (no copy)"] += 1
+    for i, (sk, a) in enumerate(steps):
+        if sk == "time":
+            k = a
+        elif sk == "gain":
+            for X in objs:
+                np.multiply(X, a, out=X)
+            g, k = g * a, 1.0
+        elif sk == "perm":
+            pp = reuse_perm(a, nch, ms)
+            pp = pp if ms else (pp,)
+            for j, (X, p) in enumerate(zip(objs, pp)):
+                X[:] = X[:, list(p)]
+                cols[j] = [cols[j][c] for c in p]
+            if ms:
+                refs = [[cols[j].index(gid) for gid in ref_ids[j]] for j in range(len(objs))]
+                ids1 = merged_ids(cols, refs)
+            else:
+                refs = None if ref_ids[0] is None else [cols[0].index(gid) for gid in ref_ids[0]]
+                ids1 = list(cols[0])
+            k = 1.0
+        L = g * np.array([[1.0 if g1 == g0 else 0.0 for g0 in ids0] for g1 in ids1])
+        r1 = one(k)
+        case = {"seed": seed, "record": kind, "nch": nch, "variant": variant, "setting": setting,
+                "same_object_sequence": [[x, y] for x, y in steps[:i + 1]]}
+        where = f"{fam}:{sk}@same-object:{variant}"
+        if judge(t, r0, r1, L, k, fam, cls, where, case):
+            t.outcomes[f"same-object pair {sk}"] += 1
+            if g != 1.0 and k != 1.0:
+                t.outcomes["same-object pair composite (in-place gain/permutation, then another time unit)"] += 1
+            t.nontrivial.add((kind, nch, variant, tuple(sorted(setting.items())), "same-object", repr(steps[:i + 1])))
+
+
+def reuse_item(it):
+    _, seed, kind, nch, variant, setting, steps = it
+    t = Tally()
+    run_reuse(t, seed, kind, nch, variant, setting, steps)
+    return t
+
+
+def work(it):
+    return reuse_item(it) if it[0] == "same-object" else item(it)
 
 
 def item(it):
@@ -599,7 +716,38 @@ def lattice(ctx):
             continue
         st = settings(fam, th)[0]
         items.append((ctx.seed, "counts", nchs[0], v, st, [("gain", 1000.0), ("gain", -1.0)]))
+    # the same array object(s) handed to several setups back to back (identical settings): every variant, every record kind,
+    # every setting; quick: the channel count and the sequence rotate with the setting; thorough: every channel count, the
+    # quick sequence of the setting continued by a rotating tail
+    seqs = []
+    n_reuse = 0
+    for kind in kinds:
+        for v in single + multi:
+            cls, fam, kw = VARIANTS[v]
+            ms = cls.endswith("_MS")
+            if fam == "efdd" and kind == "white":
+                continue
+            full = settings(fam, True)
+            for st in settings(fam, th):
+                J = full.index(st)                         # position in the thorough list: the same rotation in both tiers
+                for ni, nch in enumerate([6] if ms else (nchs if th else [nchs[J % len(nchs)]])):
+                    sq = REUSE_QUICK[J % len(REUSE_QUICK)]
+                    if th:
+                        sq = sq + REUSE_TAILS[(J + ni) % len(REUSE_TAILS)]
+                    if sq not in seqs:
+                        seqs.append(sq)
+                    items.append(("same-object", ctx.seed, kind, nch, v, st, sq))
+                    n_reuse += 1
     ctx.bounds.update({
+        "same array object re-used": {
+            "sequences": [[list(x) for x in sq] for sq in seqs], "number of sequences": n_reuse,
+            "meaning": "one ndarray (single setup) / one list of ndarrays (multi-setup) is handed, without copying, to a new setup "
+                       "for every step, all runs of a sequence directly after one another with identical settings: 'time' = same "
+                       "object declared at k x fs; 'gain' / 'perm' = object rescaled / columns permuted in place (accumulating), "
+                       "declared at fs; every step is compared with the run on the untouched record",
+            "in-place permutations": "single setup: rotation, swap of the first two, reversal, back-rotation; multi-setup: "
+                                     + repr(REUSE_PERMS_MS) + " with reference indices mapped",
+            "coverage": "every variant x record kind x setting" + (" x channel count; the sequence (a quick sequence continued by a tail) rotates with the setting and the channel count" if th else "; channel count and sequence rotate with the setting")},
         "records": {"kinds": kinds + ["counts (int64 raw counts of the response record; integer gains 1000 and -1)"], "samples": NREC, "fs": FS, "channels (single setup)": nchs, "multi-setup": "6-channel record split into 2 data sets of 4 columns sharing 2 references"},
         "algorithm variants": list(VARIANTS),
         "settings": {f: settings(f, th) for f in ("fdd", "efdd", "ssi", "plscf")},
@@ -613,7 +761,9 @@ def lattice(ctx):
 
 def explore(ctx):
     items = lattice(ctx)
-    ctx.pmap(item, items, chunksize=1)
+    ctx.pmap(work, items, chunksize=1)
+    ctx.require("same-object pair time", "same-object pair gain", "same-object pair perm",
+                "same-object pair composite (in-place gain/permutation, then another time unit)")
     ctx.require("pair gain", "pair perm", "pair mix", "pair time", "stable poles matched", "unit largest component verified",
                 "pole tables compared (ssi)", "pole tables compared (plscf)", "extraction compared (ssi)",
                 "extraction compared (plscf)", "extraction compared (fdd)", "extraction compared (efdd)",
@@ -622,6 +772,10 @@ def explore(ctx):
 
 def replay(case):
     t = Tally()
+    if "same_object_sequence" in case:
+        steps = tuple((x, y) for x, y in case["same_object_sequence"])
+        run_reuse(t, case["seed"], case["record"], case["nch"], case["variant"], dict(case["setting"]), steps)
+        return t
     tr = (case["transformation"][0], case["transformation"][1])
     if tr[0] == "perm":
         a = tr[1]
